@@ -59,7 +59,8 @@ Definition w_create (F : fs) (cfg : string) (s : string) (data : dict string) : 
   | None => Raise SpilException
   | Some p =>
       if fs_exists F p then Raise SpilException else
-      do F1 <- (if truthy (path_suffix p)
+      (* only leaf Sids are files (a folder name may contain a dot): the repaired D29 *)
+      do F1 <- (if truthy (path_suffix p) && is_leaf L x
                 then (if rt_touch R then fs_touch F p else Ok F)
                 else fs_mkdir_parents F p);
       if negb (fs_exists F1 p) then Ok (F1, false) else
